@@ -38,7 +38,8 @@ func (node *Node) processUnconfirmedTx(ctx context.Context, tx handlers.TxData) 
 	node.blockLock.Lock()
 	defer node.blockLock.Unlock()
 
-	node.txTracker.Remove(ctx, *hash)
+	// The tx has been received, so no node needs to request it anymore.
+	node.removeFromTrackers(ctx, *hash)
 
 	// The mempool is needed to track which transactions have been sent to listeners and to check
 	//   for attempted double spends.
